@@ -333,8 +333,9 @@ def transpose_idx_harness(nnz, maxdim, kernels):
         bidx = bidx.astype(np.uint32)
         tr = kernels['get_transpose_idx_for_bidx'](bidx)
         ok = all(tuple(bidx[int(tr[k])]) == (bidx[k][1], bidx[k][0]) for k in range(nnz))
-        c.check(z3.BoolVal(bool(ok)), 'transpose idx')
-    return run
+        c.check(z3.BoolVal(bool(ok)), 'get_transpose_idx_for_bidx: entry k is the position of the transposed index pair')
+        c.witness('transpose idx')
+    return run, pos
 
 
 # ----------------------------------------------------------------------------------------
@@ -436,6 +437,20 @@ def object_harness(ns, bs, bw, axes):
         c.witness('object')
     return run
 
+
+REPLAY_TRANSP = r'''
+import sys, json, numpy as np
+w = json.load(sys.stdin)
+from pyiga import mlmatrix
+b = np.array(w['bidx'], dtype=np.uint32)
+bad = []
+try:
+    T = np.asarray(mlmatrix.get_transpose_idx_for_bidx(b))
+    if any(tuple(b[int(T[k])]) != (b[k][1], b[k][0]) for k in range(len(b))): bad.append('map %s' % T.tolist())
+except Exception as e:
+    bad.append('exception %s: %s' % (type(e).__name__, e))
+print(json.dumps({'reproduced': bool(bad), 'bad': bad}))
+'''
 
 REPLAY_OBJECT = r'''
 import sys, json, itertools, numpy as np
@@ -562,6 +577,17 @@ def main():
     # ---- (4) index maps
     if run.want('index'):
         pyf = ns
+        for nnz, md in [(2, 3), (3, 3), (4, 3)] + ([(5, 3), (4, 4)] if thorough else []):
+            h, pos = transpose_idx_harness(nnz, md, kernels)
+            st = sx.explore(h, timeout_ms=60000, max_paths=50000)
+            run.absorb(st, 'index-maps', bound={'fn': 'get_transpose_idx_for_bidx', 'nnz': nnz, 'indices <': md, 'order': 'any listing order of a structurally symmetric pattern'},
+                       sample={'obligation': 'transpose index map', 'nnz': nnz})
+            for cex in st.cex:
+                m = cex['model']
+                bidx = [[int(sx.model_value(m, a)), int(sx.model_value(m, b))] for a, b in pos]
+                r = realbuild.run_real(REPLAY_TRANSP, {'bidx': bidx})
+                run.report('get_transpose_idx_for_bidx', 'get_transpose_idx_for_bidx(%s): %s' % (bidx, r['bad']), {'kind': 'transp', 'bidx': bidx}, r['reproduced'])
+                break
         for L in (1, 2, 3):
             st = sx.explore(seq_harness(L, 5 if L < 3 else 4, pyf, kernels), timeout_ms=60000)
             run.absorb(st, 'index-maps', bound={'fn': 'to_seq/from_seq', 'L': L, 'dims': '1..5 symbolic'},
@@ -737,7 +763,7 @@ def validate_translation(run):
 
 def replay_file(path):
     w = json.load(open(path))['witness']
-    code = {'nonzero': REPLAY_NONZERO, 'matvec': REPLAY_MATVEC, 'sparsity': REPLAY_SPARSITY, 'rows': REPLAY_ROWS, 'object': REPLAY_OBJECT}[w['kind']]
+    code = {'nonzero': REPLAY_NONZERO, 'matvec': REPLAY_MATVEC, 'sparsity': REPLAY_SPARSITY, 'rows': REPLAY_ROWS, 'object': REPLAY_OBJECT, 'transp': REPLAY_TRANSP}[w['kind']]
     r = realbuild.run_real(code, w)
     print(json.dumps(r))
     print('REPRODUCED' if r['reproduced'] else 'NOT-REPRODUCED')
